@@ -175,8 +175,9 @@ def gen_src(rng, nwrites, max_n, spread_ns, close=True, big_chance=(1, 10)):
 
 def est_pieces(case):
     """rough number of sink writes the case produces (slicer pieces, bandwidth instalments, 32 KiB reads)"""
-    nbytes = sum(e.get("n", 0) for e in case["src"])
-    nchunks = sum((e.get("n", 0) + 32767) // 32768 for e in case["src"])
+    evs = list(case["src"]) + [e for s in (case.get("srcs") or []) for e in s]
+    nbytes = sum(e.get("n", 0) for e in evs)
+    nchunks = sum((e.get("n", 0) + 32767) // 32768 for e in evs)
     est = nchunks
     for t in case["chain"]:
         a = t["attributes"]
@@ -194,7 +195,7 @@ def cap_case(case, limit=2500):
     for _ in range(40):
         if est_pieces(case) <= limit:
             break
-        for e in case["src"]:
+        for e in list(case["src"]) + [e for s in (case.get("srcs") or []) for e in s]:
             if e.get("n", 0) > 1:
                 e["n"] = max(1, e["n"] // 2)
     return case
@@ -214,7 +215,7 @@ def shrink(case, fails, max_rounds=40):
             del c["chain"][i]
             cands.append(c)
         for i in range(len(cur["src"])):
-            if cur["src"][i].get("close"):
+            if cur["src"][i].get("close") or cur.get("srcs"):
                 continue
             c = json.loads(json.dumps(cur))
             del c["src"][i]
@@ -234,3 +235,116 @@ def shrink(case, fails, max_rounds=40):
         if not progressed:
             break
     return cur
+
+
+# ---------------------------------------------------------------- generic property runner
+def load_corpus(pid):
+    d = os.path.join(C.CORPUS, pid)
+    cs = []
+    if os.path.isdir(d):
+        for fn in sorted(os.listdir(d)):
+            if fn.endswith(".json"):
+                cs.append(json.load(open(os.path.join(d, fn)))["case"])
+    return cs
+
+
+def run_link_property(ctx, pid, gen_cases, oracle, classify, rule, nontrivial, assumptions,
+                      extra_targets=(), model_filter=None, known_class=None, extra_cov=None):
+    verdict = C.Verdict(ctx)
+    rng = C.Rng(ctx.seed).fork(pid)
+    proof = C.proof_step(ctx, verdict, pid, extra_targets=["Run/LinkRun.vo"] + list(extra_targets))
+    corpus = load_corpus(pid)
+    gen, stats = gen_cases(ctx, rng)
+    cases = corpus + gen
+    results = run_impl(ctx, cases, pid.lower())
+    ctx.log("ran %d scripts through the implementation" % len(cases))
+    # further links of a multi-link case are judged like cases of their own (same script, own observations)
+    nbase = len(cases)
+    for i in range(nbase):
+        r = results[i]
+        if r and r.get("more"):
+            for k, m in enumerate(r["more"]):
+                ck = cases[i]
+                if ck.get("srcs") and k + 1 < len(ck["srcs"]):
+                    ck = dict(ck)
+                    ck["src"] = ck["srcs"][k + 1]
+                    ck["srcs"] = None
+                    ck["links"] = 1
+                cases.append(ck)
+                results.append(m)
+            r["more"] = None
+    failing = []
+    for i, (c, r) in enumerate(zip(cases, results)):
+        w = oracle(c, r)
+        if w:
+            failing.append((case_cost(c), i, w))
+    failing.sort()
+    model_ok = os.path.exists(os.path.join(C.COQ, "Run", "LinkRun.vo"))
+    idx = [i for i, r in enumerate(results) if r is not None and "crash" not in r and (model_filter is None or model_filter(cases[i]))]
+    mism = {}
+    if model_ok:
+        mism = model_verdicts(ctx, cases, results, idx, pid.lower())
+    ctx.log("oracle failures: %d, model mismatches: %d" % (len(failing), len(mism)))
+
+    reported = set()
+    for _, i, w in failing:
+        key = classify(w) if known_class is None else (known_class(cases[i], results[i], w) or classify(w))
+        if key in reported:
+            continue
+        reported.add(key)
+
+        def fails(c, _w=w):
+            r = run_impl(ctx, [c], pid.lower() + "_shrink", procs=1)
+            return oracle(c, r[0]) is not None
+        small = shrink(cases[i], fails) if len(reported) <= 2 else cases[i]
+        r_small = run_impl(ctx, [small], pid.lower() + "_shrink", procs=1)[0]
+        verdict.add(key, oracle(small, r_small) or w,
+                    {"kind": "failing-input", "case": small, "observed": r_small, "oracle": w,
+                     "model_predicts": model_trace(ctx, small, pid.lower() + "_trace") if model_ok else None})
+    if not failing:
+        if not proof["build_ok"]:
+            verdict.add("proof-broken",
+                        "proof obligation of %s no longer checks (%s) and no failing script was found among %d"
+                        % (pid, ", ".join(proof.get("broken", [])), len(cases)),
+                        {"kind": "proof-broken", "broken": proof.get("broken"), "build_tail": proof.get("build_tail"),
+                         "extracted": getattr(ctx, "extract_meta", {})}, has_input=False)
+        if mism:
+            i = sorted(mism, key=lambda j: case_cost(cases[j]))[0]
+            verdict.add("correspondence-broken",
+                        "model and implementation disagree on %d scripts (verdict code %d on the smallest) although every "
+                        "implementation trace satisfies the oracle" % (len(mism), mism[i]),
+                        {"kind": "correspondence", "case": cases[i], "observed": results[i],
+                         "model_predicts": model_trace(ctx, cases[i], pid.lower() + "_trace")}, has_input=False)
+    rc, nviol = verdict.finish()
+    nt = set(json.dumps(c, sort_keys=True) for c in cases if nontrivial(c))
+    mid = cases[len(cases) // 2]
+    cov = {
+        "obligations": proof["obligations"], "discharged": proof["discharged"],
+        "checker_cmd": "coq_makefile + make Properties/%s.vo (coqc 8.16.1), Print Assumptions per theorem" % pid,
+        "theorems": proof["theorems"], "print_assumptions": proof["assumptions"],
+        "evaluations": len(cases), "distinct_nontrivial": len(nt), "rule": rule,
+        "traces_validated_against_impl": len(idx) if model_ok else 0,
+        "model_mismatches": len(mism), "oracle_failures": len(failing),
+        "input_distribution": stats, "corpus_cases": len(corpus),
+        "samples": [{"script": mid, "observed": results[len(cases) // 2]}],
+    }
+    if extra_cov:
+        cov.update(extra_cov(cases, results))
+    C.write_evidence(ctx, cov, assumptions, nviol)
+    return rc
+
+
+def replay_link(ctx, pid, path, oracle):
+    rp = json.load(open(path))
+    if rp.get("kind") != "failing-input":
+        print("replay file names a broken obligation, not an input:", rp.get("what"))
+        return 1
+    r = run_impl(ctx, [rp["case"]], pid.lower() + "_replay", procs=1)[0]
+    w = oracle(rp["case"], r)
+    print("observed:", json.dumps(r)[:2000])
+    if w:
+        print("VIOLATION property=%s replay=%s" % (pid, path))
+        print("  what:", w)
+        return 1
+    print("replay passes on the current tree")
+    return 0
